@@ -89,6 +89,7 @@ func ruleOrderOperands(c *Ctx, r *R) {
 		"nodeNewExpression":     {"callee", "argumentList", "§11.2.2"},
 		"nodeBinaryExpression":  {"left", "right", "§11.5-11.11"},
 		"nodeAssignExpression":  {"left", "right", "§11.13.2 (compound assignment)"},
+		"nodeSwitchStatement":   {"discriminant", "body", "§12.11 step 2 (GetValue of the discriminant once, before any clause)"},
 	}
 	for _, fn := range c.AllSrcFuncs("") {
 		if fn.Parent() != nil || fn.Signature.Recv() == nil || !typeIs(fn.Signature.Recv().Type(), ottoPath, "runtime") {
